@@ -140,6 +140,11 @@ CHECKS["C01"] = {
          "cover": ["own-store", "own-fetch", "own-plain", "update-delivered"]},
         {"name": "idlebulk", "pkg": "internal/session", "pkgname": "session", "entry": "VerifC01IdleBulk", "files": ["zz_verif_c01idle.go"],
          "params": {"quick": [{}], "thorough": [{}]}, "cover": ["idle-bulk"]},
+        {"name": "wire", "pkg": "internal/session", "pkgname": "session", "entry": "VerifC01Wire", "files": ["zz_verif_c18.go", "zz_verif_c18b.go", "zz_verif_c01.go", "zz_verif_c01idle.go", "zz_verif_c01idle2.go", "zz_verif_c01wire.go"],
+         "with": ["state_export", "backend_export", "verifdb"], "goroutines": True, "concrete_time": True, "replay_timeout_s": 90,
+         "extra_overlay": {"internal/response/zz_verif_decode.go": "internal/response/zz_verif_decode.go"},
+         "params": {"quick": grid(k=[1, 2]), "thorough": grid(k=[3])},
+         "cover": ["wire-probed", "wire-fresh-compared"]},
         {"name": "idle", "pkg": "internal/session", "pkgname": "session", "entry": "VerifC01Idle", "files": ["zz_verif_c18.go", "zz_verif_c18b.go", "zz_verif_c01.go", "zz_verif_c01idle.go", "zz_verif_c01idle2.go"],
          "with": ["state_export", "backend_export", "verifdb"], "goroutines": True,
          "extra_overlay": {"internal/response/zz_verif_decode.go": "internal/response/zz_verif_decode.go"},
@@ -239,6 +244,11 @@ CHECKS["C02"] = {
         {"name": "queue", "pkg": "async", "pkgname": "async", "entry": "VerifC02Queue", "files": ["zz_verif_c02.go"], "goroutines": True, "replay_timeout_s": 40,
          "params": {"quick": grid(k=[2], burst=[3]), "thorough": grid(k=[3], burst=[3]) + grid(k=[2], burst=[5])},
          "cover": ["queue-drained"]},
+{"name": "wire", "pkg": "internal/session", "pkgname": "session", "entry": "VerifC01Wire", "files": ["zz_verif_c18.go", "zz_verif_c18b.go", "zz_verif_c01.go", "zz_verif_c01idle.go", "zz_verif_c01idle2.go", "zz_verif_c01wire.go"],
+         "with": ["state_export", "backend_export", "verifdb"], "goroutines": True, "concrete_time": True, "replay_timeout_s": 90,
+         "extra_overlay": {"internal/response/zz_verif_decode.go": "internal/response/zz_verif_decode.go"},
+         "params": {"quick": grid(k=[1, 2]), "thorough": grid(k=[3])},
+         "cover": ["wire-probed", "wire-fresh-compared"]},
         {"name": "session", "pkg": "internal/session", "pkgname": "session", "entry": "VerifC01Session", "files": ["zz_verif_c18.go", "zz_verif_c18b.go", "zz_verif_c01.go"],
          "with": ["state_export", "backend_export", "verifdb"],
          "extra_overlay": {"internal/response/zz_verif_decode.go": "internal/response/zz_verif_decode.go"},
